@@ -110,6 +110,35 @@ func (env *Env) resolveType(t TypeExpr) types.Type {
 		name = name[:i]
 	}
 	var base types.Type
+	if t.Pkg == "" && env.fr != nil && env.fr.fn != nil {
+		// type parameters of the function under analysis (or of its receiver type)
+		fn := env.fr.fn
+		if fn.Origin() != nil {
+			fn = fn.Origin()
+		}
+		if tps := fn.TypeParams(); tps != nil {
+			for i := 0; i < tps.Len(); i++ {
+				if tps.At(i).Obj().Name() == name {
+					return tps.At(i)
+				}
+			}
+		}
+		if r := fn.Signature.Recv(); r != nil {
+			rt := r.Type()
+			if p, ok := rt.(*types.Pointer); ok {
+				rt = p.Elem()
+			}
+			if n, ok := types.Unalias(rt).(*types.Named); ok {
+				if tas := n.TypeArgs(); tas != nil {
+					for i := 0; i < tas.Len(); i++ {
+						if tp, ok := tas.At(i).(*types.TypeParam); ok && tp.Obj().Name() == name {
+							return tp
+						}
+					}
+				}
+			}
+		}
+	}
 	if t.Pkg == "" {
 		if o := types.Universe.Lookup(name); o != nil {
 			if tn, ok := o.(*types.TypeName); ok {
@@ -1296,7 +1325,7 @@ func (c *Ctx) modTargets(env *Env, m Expr) []modTarget {
 						l := c.fieldLoc(t, f, "0")
 						for _, lf := range leavesOf(f.Type()) {
 							iv := inv
-							out = append(out, modTarget{heap: l.heap + lf.suffix, pred: func(r string) string { return "(= (elemD " + iv(r) + ") " + data + ")" }})
+							out = append(out, modTarget{heap: l.heap + lf.suffix, pred: func(r string) string { return c.elemOfPred(iv(r), data, nil) }})
 						}
 					}
 				}
